@@ -28,7 +28,7 @@ RULE = (
 ASSUMPTIONS = ["exact ties between an arrival and the timeout instant are excluded, as the statement says"]
 
 Q = 0.25
-VALUES = ["m1", "m2", "n1", "n2", ""]  # element x starts at "n0"; "" only matters for the expect-empty condition
+VALUES = ["m1", "m2", "n1", "n2", "", None]  # element x starts at "n0"; "" only matters for the expect-empty condition; None = the element arrives without content
 STATEVALS = ["Ok", "Busy", "Alert", "Alert"]  # vector starts Idle
 
 
@@ -97,7 +97,7 @@ def arrival_message(kind, target, vi):
 
     if kind == "value":
         name = "x" if target == 0 else "y"
-        return message.SetTextVector(device="A", name="P", state="Idle", children=(one_parts.OneText(name=name, value=VALUES[vi % 5]),))
+        return message.SetTextVector(device="A", name="P", state="Idle", children=(one_parts.OneText(name=name, value=VALUES[vi % len(VALUES)]),))
     vec = "P" if target == 0 else "Q"
     return message.SetTextVector(device="A", name=vec, state=STATEVALS[vi % 4], children=())
 
@@ -304,6 +304,8 @@ def grid_blocks(tier):
     for k in range(0, 3):
         for times in itertools.combinations_with_replacement(range(0, npts + 1, 2), k):
             yield {"kind": "value", "cond": "expect-empty", "arrival_times": list(times), "n_points": npts, "patterns": [(0, 4), (0, 0), (1, 4)]}
+            # the watched element arrives without content (None): a departure from the initial value like any other
+            yield {"kind": "value", "cond": "initial", "arrival_times": list(times), "n_points": npts, "patterns": [(0, 5), (0, 2), (1, 5)]}
     for kind in ("value", "state"):
         for cond in ("expect", "initial", "check"):
             for k in range(0, maxev + 1):
@@ -311,7 +313,7 @@ def grid_blocks(tier):
                     yield {"kind": kind, "cond": cond, "arrival_times": list(times), "n_points": npts}
 
 
-arrival_st = st.tuples(st.integers(0, 24), st.sampled_from([0, 0, 0, 1]), st.integers(0, 4)).map(list)
+arrival_st = st.tuples(st.integers(0, 24), st.sampled_from([0, 0, 0, 1]), st.integers(0, 5)).map(list)
 wait_st = st.fixed_dictionaries(
     {
         "cond": st.sampled_from(["expect", "initial", "check", "expect-empty", "check-raises"]),
